@@ -226,8 +226,9 @@ theorem same_take_lt (es : List Entry) (i j : Nat) (p : Bytes) (hij : i < j)
     rw [hget, List.length_take]
     have : min i es.length = i := by omega
     rw [this]
-    have : j - i = (j - i - 1) + 1 := by omega
-    rw [this, List.take_succ_cons]
+    obtain ⟨k, hk⟩ : ∃ k, j - i = k + 1 := ⟨j - i - 1, by omega⟩
+    have hk' : j - i - 1 = k := by omega
+    rw [hk', hk, List.take_succ_cons]
   rw [this, same_append]
   have : same ((none, p) :: (es.drop (i + 1)).take (j - i - 1)) p ≥ 1 := by
     simp [same]
